@@ -13,11 +13,12 @@ from nv.framework import Check, pmap, sha, harness_fail
 from nv import loader, conform, cbuild, deriv as D, universe as U
 from nv.am import AM, UB, Spin, END
 
-TEXT_ATOMS = ["a", "b", ".", "[ab]", "[^a]", "[^ab]", "[a-c]", "\\d", "\\w", "\\W", "\\s", "\\S", "\\n", "\\.", "\\ ", "\\D", "[^\\w]", "[\\d_]", "[^a\\d]"]
+TEXT_ATOMS = ["a", "b", ".", "[ab]", "[^a]", "[^ab]", "[a-c]", "\\d", "\\w", "\\W", "\\s", "\\S", "\\n", "\\.", "\\ ", "\\D", "[^\\w]", "[\\d_]", "[^a\\d]",
+              "[\\W\\D]", "[\\S\\D]", "[^\\W\\D]", "[\\W\\S]", "[a\\W]", "[\\w\\s]", "[^\\W\\s]", "[\\D\\d]", "[^\\D]", "\\t", "\\r", "\\*", "\\\\", "\\/", "\\[", "$", "[b-da]", "[0-3]"]
 BIN_ATOMS = [U.batom_byte(0x61), U.batom_byte(0x62), U.atom(".", U.ALL), U.batom_set([0x61, 0x62]), U.batom_set([0x61], True),
              U.batom_range(0x61, 0x63), U.batom_byte(0xff), U.batom_range(0x80, 0xff), U.batom_byte(0x00), U.batom_set([0x00, 0xff], True)]
 QUANTS = ["*", "+", "?"]
-REPS = [(2,), (1, 2), (2, None), (0, 1), (0, 2), (3,), (1, 3)]
+REPS = [(2,), (1, 2), (2, None), (0, 1), (0, 2), (3,), (1, 3), (0, None), (1, None), (1,), (0, 3), (3, None), (2, 3)]
 
 
 def gen(size, atoms, reps_upto=2):
